@@ -446,7 +446,7 @@ Inductive dispatch :=
 | DNoAccess                   (* access request, no Access handler: left to other services *)
 | DRun (script : list action).
 
-Definition run_request (c : cfg) (r : req) (d : dispatch) : list pubmsg :=
+Definition handle_request (c : cfg) (r : req) (d : dispatch) : list pubmsg :=
   match d with
   | DNoMatch => [reply_pub r (PJson (error_json (Some err_not_found) None))]
   | DBadJson msg => [reply_pub r (PJson (ej (Some (internal_err msg)) None))]
@@ -455,6 +455,11 @@ Definition run_request (c : cfg) (r : req) (d : dispatch) : list pubmsg :=
   | DNoAccess => []
   | DRun s => finish r (run_script c r st0 s)
   end.
+
+(* Service.handleRequest: a request delivered WITHOUT a reply subject is dropped with an error log
+   before anything else happens - no handler runs, nothing is published *)
+Definition run_request (c : cfg) (r : req) (d : dispatch) : list pubmsg :=
+  if is_nil (rreply r) then [] else handle_request c r d.
 
 (* ---------- queryevent.go ---------- *)
 Inductive qaction :=
@@ -600,6 +605,7 @@ Definition top_ok (t : top) : bool :=
   match t with
   | TStart => true
   | TRequest r d =>
+      is_nil (rreply r) ||      (* no reply subject: dropped *)
       valid_subject (rreply r) && valid_rname (rs_name (rres r)) &&
       match d with DRun s => forallb (action_ok r) s | _ => true end
   | TWith r s => valid_rname (rs_name r)
